@@ -174,6 +174,18 @@ func universal(sc *Scn, x *vrt.Sched, w *World) []Finding {
 				}
 			}
 		}
+		// C17: Stop has not been called and a client waits for the server for ever
+		if !stopBlocked && hasProp(sc, "C17") && !strings.Contains(blocked, "stopper") {
+			for _, b := range x.Blocked {
+				name := b
+				if at := strings.IndexByte(b, '@'); at >= 0 {
+					name = b[:at]
+				}
+				if ci := clientIndex(sp, name); ci >= 0 && name != "faulty" && (strings.Contains(b, ".Read") || strings.Contains(b, "Dial")) {
+					addOnce("C17", "a connection made while the server is ready and not stopped is never served; "+key, blocked)
+				}
+			}
+		}
 		// C08: Stop has been called (or the client is gone) and a connection is never closed and reported
 		if stopBlocked && hasProp(sc, "C08") {
 			unreported := !sp.Srv.NoOnClose && vnet.Accepted() >= 0 && len(w.OnClose) < vnet.Accepted()
@@ -387,6 +399,7 @@ func universal(sc *Scn, x *vrt.Sched, w *World) []Finding {
 		if n > 1 && n > sent[id] {
 			add("C06", "a request is dispatched more than once", fmt.Sprintf("message %d dispatched %d times", id, n))
 			add("C03", "a request is handled more than once (through the connection loop)", fmt.Sprintf("message %d dispatched %d times", id, n))
+			add("C01", "handlers of pipelined requests are handed the message of another request (one request's message arrives more than once, another's not at all)", fmt.Sprintf("message %d was seen by %d handler invocations; dispatched: %v", id, n, w.Dispatch))
 		}
 	}
 	// a request whose client received all expected answers must have been dispatched
